@@ -501,3 +501,58 @@ func ZZ_C07_device_flow() {
 		}
 	}
 }
+
+// ZZ_C07_hybrid_history: the access token handed out by the authorization endpoint in the OIDC hybrid flow
+// ("code token") at a later point of the grant's history: the code is redeemed (and the grant refreshed)
+// after a symbolic wait; the first access token must still stop being honoured when its own advertised
+// lifetime has passed, whatever the later issuances did to the grant's stored session.
+func ZZ_C07_hybrid_history() {
+	wd := world.NewX(world.XOptions{Hybrid: true})
+	form := url.Values{
+		"client_id": {"c1"}, "response_type": {"code token"}, "redirect_uri": {"https://c1.example/cb"},
+		"scope": {"openid offline photos"}, "state": {"state-0123456789"}, "nonce": {"nonce-0123456789"},
+	}
+	ar, err := wd.Provider.NewAuthorizeRequest(wd.Ctx, get(form))
+	zz.Assume(err == nil)
+	for _, s := range ar.GetRequestedScopes() {
+		ar.GrantScope(s)
+	}
+	resp, err := wd.Provider.NewAuthorizeResponse(wd.Ctx, ar, world.NewOIDCSession("peter"))
+	zz.Assume(err == nil)
+	code, at0 := resp.GetCode(), resp.GetParameters().Get("access_token")
+	zz.Assume(code != "" && at0 != "")
+	adv, perr := strconv.ParseInt(resp.GetParameters().Get("expires_in"), 10, 64)
+	zz.Assert(perr == nil, "hybrid response carries a decimal expires_in")
+	advertised := time.Duration(adv) * time.Second
+	zz.Assert(advertised <= time.Hour+slack && advertised > time.Hour-2*slack, "hybrid expires_in equals the access-token lifespan")
+
+	// the code is redeemed within its lifetime, the grant possibly refreshed
+	d1 := dur("wait", 0, 9*60)
+	zz.Advance(d1)
+	tok, err := wd.Redeem("c1", code)
+	zz.Assume(err == nil)
+	if zz.Choice("refreshed", 2) == 1 {
+		rt := world.RefreshTokenOf(tok)
+		zz.Assume(rt != "")
+		_, err = wd.Refresh("c1", rt)
+		zz.Assume(err == nil)
+		zz.Cover("hybrid:grant-refreshed", true)
+	}
+	d2 := dur("advance", 0, 2*3600)
+	zz.Advance(d2)
+	active, _ := wd.Introspect(at0, fosite.AccessToken)
+	total := d1 + d2
+	if zz.Symbolic() {
+		// the native clock drifts between calls: witnesses stay 3 s away from the instant at which a token
+		// issued by the later code exchange would expire (the other boundary, the first token's own expiry,
+		// is excluded by the region cut below)
+		zz.Assume(total < d1+time.Hour-3*time.Second || total > d1+time.Hour+3*time.Second)
+	}
+	if total > advertised+3*time.Second {
+		zz.Cover("hybrid:first-token-after-its-lifetime", true)
+		zz.Observe("first.active", active)
+		zz.Assert(!active, "the access token of the authorization endpoint is not honoured after its advertised lifetime (+1s)")
+	} else if total < advertised-time.Second-slack {
+		zz.Cover("hybrid:first-token-within-its-lifetime", true)
+	}
+}
